@@ -112,6 +112,33 @@ func VerifCancelSingle() {
 	verifReach("cancelled")
 }
 
+// VerifDeadlineSingle: as VerifCancelSingle, but the context ends by deadline expiry: the
+// request returns context.DeadlineExceeded (the lookups' own timeouts - regionLookupTimeout is
+// an hour - do not expire; only the caller's deadline passes).
+func VerifDeadlineSingle() {
+	verifFreezeTime(true)
+	state := verifChoose(wsCount)
+	c, _ := vCancelSetup(state)
+	ctx, cancel := context.WithTimeout(context.Background(), 1500*time.Millisecond)
+	defer cancel()
+	g, _ := hrpc.NewGet(ctx, []byte("t"), []byte("k"))
+	var err error
+	done := false
+	go func() {
+		_, err = c.SendRPC(g)
+		done = true
+	}()
+	verifQuiesce()
+	verifAssert(!done, "the request is blocked in the wait state under test")
+	verifExpire(ctx)
+	verifQuiesce()
+	establishRegionOverride = nil
+	verifAssert(done, "a request blocked in state '"+vStateNames[state]+"' returns once its deadline has passed")
+	verifAssert(err == context.DeadlineExceeded, "it returns the context's error")
+	verifObserveInt("state", state)
+	verifReach("expired")
+}
+
 // VerifCancelBatch: a batch blocked in any wait state; the batch context or the context of
 // one call of the batch is cancelled (contexts shared or distinct).
 func VerifCancelBatch() {
